@@ -4,7 +4,9 @@
    The builder keeps several *unordered* collections (Go maps) that are walked when a
    file is written: the per-file import table, the file table, the overload tables built
    while a package is imported, the set of extension-package dependencies reachable from
-   exported signatures.  A walk over a map has no defined order, so the model lets every
+   exported signatures, the force-imported (blank) packages of a file, and the imports that
+   share a base name (whose aliases are allocated lazily, per file, when a file is first
+   rendered - in whatever order the file table is walked).  A walk over a map has no defined order, so the model lets every
    walk choose ANY permutation; two copies of the writer run on the same program with
    independent choices (self-composition) and must produce the same bytes.  A walk whose
    result is sorted before it is used is harmless; an unsorted one is a violation as soon
@@ -17,7 +19,7 @@
    map iteration per loop) and in two fresh processes and compares every file byte for byte. *)
 EXTENDS Integers, Sequences, FiniteSets, TLC, Json
 CONSTANTS MaxItems, Sorted   \* Sorted: [Collections -> BOOLEAN]
-Collections == {"imports", "files", "overloads", "xgodeps"}
+Collections == {"imports", "files", "overloads", "xgodeps", "forced", "samebase"}
 VARIABLES size, perm1, perm2
 vars == <<size, perm1, perm2>>
 Perms(n) == {p \in [1..n -> 1..n] : \A i, j \in 1..n : i # j => p[i] # p[j]}
@@ -26,7 +28,8 @@ Ascending(p) == [i \in DOMAIN p |-> i]
 Emitted(c, p) == IF Sorted[c] THEN Ascending(p) ELSE p
 \* the first copy walks every collection in ascending order (without loss of generality: any two walks differ iff
 \* one of them differs from the ascending one), the second copy's walks are free
-PermRec(sz) == [imports : Perms(sz["imports"]), files : Perms(sz["files"]), overloads : Perms(sz["overloads"]), xgodeps : Perms(sz["xgodeps"])]
+PermRec(sz) == [imports : Perms(sz["imports"]), files : Perms(sz["files"]), overloads : Perms(sz["overloads"]), xgodeps : Perms(sz["xgodeps"]),
+                forced : Perms(sz["forced"]), samebase : Perms(sz["samebase"])]
 Init == /\ size \in [Collections -> 0..MaxItems]
         /\ perm1 = [c \in Collections |-> [i \in 1..size[c] |-> i]]
         /\ perm2 \in PermRec(size)
